@@ -1,9 +1,44 @@
 import NmVerif.Proto
+import NmVerif.Utility.IsEqual
 namespace NmVerif.Driver.C18
-open NmVerif NmVerif.Proto
+open NmVerif NmVerif.Proto NmVerif.IsEqual
 
-def handle : Handler := fun op _args =>
+/-- operand `p` ∈ {a,b}: keys `pk` kind (num|idx|nd), `ps` shape, `pd` data, `pw` wrapper (plain|nothing|just|left|right) -/
+def operand (a : Args) (p : String) : Option Val := do
+  let k ← a.get? (p ++ "k")
+  let d ← a.ints (p ++ "d")
+  let base ← match k with
+    | "num" => d.head?.map Val.num
+    | "idx" => some (Val.idx d)
+    | "nd" => (a.nats (p ++ "s")).map (fun s => Val.nd s d)
+    | _ => none
+  match (a.get? (p ++ "w")).getD "plain" with
+  | "plain" => some base
+  | "nothing" => some Val.nothing
+  | "just" => some (Val.just base)
+  | "left" => some (Val.left base)
+  | "right" => some (Val.right base)
+  | _ => none
+
+def fmtRes : Res → String
+  | .val true => "ok true"
+  | .val false => "ok false"
+  | .oob => "oob"
+  | .notAccepted => "not-accepted"
+
+def handle : Handler := fun op a =>
   match op with
+  | "isequal" => orBad do
+      let x ← operand a "a"
+      let y ← operand a "b"
+      pure (fmtRes (isequal x y))
+  | "isequal_tup" => orBad do
+      -- tuple (num, index array) on both sides
+      let an ← a.int "an"; let ad ← a.ints "ad"; let bn ← a.int "bn"; let bd ← a.ints "bd"
+      pure (fmtRes (isequal (.pair (.num an) (.pair (.idx ad) .unit)) (.pair (.num bn) (.pair (.idx bd) .unit))))
+  | "isclose" => orBad do
+      let s1 ← a.nats "as"; let d1 ← a.ints "ad"; let s2 ← a.nats "bs"; let d2 ← a.ints "bd"; let eps ← a.int "eps"
+      pure (fmtRes (iscloseNd eps s1 d1 s2 d2))
   | _ => none
 
 end NmVerif.Driver.C18
